@@ -100,43 +100,39 @@ Example C07_detection_nonvacuous :
   crc_ok (xor_bytes frame [0; 0; 4; 0; 0; 128; 0; 0]) = false.
 Proof. cbv zeta. repeat split; vm_compute; reflexivity. Qed.
 
-(* ---- binary framer.  The unrestricted gate is REFUTED (finding F-C07-binary-stale-start): with
-   one noise byte in front and one byte inserted after '{', a message is delivered although the
-   received bytes contain no '{'..'}' frame for it with a matching CRC. *)
-Definition C07_gate_binary_full_statement : Prop :=
-  forall cfg st chunk st' ds x, wfb (b_buf st ++ chunk) = true ->
-    bin_recv cfg st chunk = (st', ds, x) ->
-    forall pdu uid, In (pdu, uid) ds -> justified_binary (b_buf st ++ chunk) pdu uid = true.
-
-Theorem C07_gate_binary_refuted :
-  let cfg := {| cf_dec := fun _ => DMsg; cf_rules := server_decoder; cf_units := [17%Z]; cf_single := false |} in
-  let rx := [0; 123; 17; 3; 43; 14; 1; 0; 9; 183; 125] in
-  snd (fst (bin_recv cfg bin_init rx)) = [([3; 43; 14; 1; 0], 17%Z)] /\
-  justified_binary rx [3; 43; 14; 1; 0] 17 = false /\
-  is_infix ([123] ++ with_crc [17; 3; 43; 14; 1; 0] ++ [125]) rx = false /\
-  spec_rx_binary [123; 3; 43; 14; 1; 0; 9; 183; 125] = Some ([43; 14; 1; 0], 3).
-Proof. exact bin_gate_refuted_witness. Qed.
-Print Assumptions C07_gate_binary_refuted.
-
-(* GATE, binary, strongest true statement: when the bytes examined start with '{' (the local
-   `start` of checkFrame is then not stale), for every header content, chunk and decoder: the
-   first message delivered by the call is exactly the unit and PDU between the braces, the two
-   bytes before '}' are their bitwise CRC-16 (low byte first), and no '}' lies inside.
-   ([cf_dec cfg [] <> DMsg]: both real decoders reject the empty PDU.) *)
-Theorem C07_gate_binary : forall cfg st chunk st' d ds x,
-  wfb (b_buf st ++ chunk) = true -> find_byte 123 (b_buf st ++ chunk) = 0%Z ->
-  cf_dec cfg [] <> DMsg ->
-  bin_recv cfg st chunk = (st', d :: ds, x) ->
-  exists u pdu c0 c1 rest,
-    b_buf st ++ chunk = [123] ++ (u :: pdu) ++ [c0; c1] ++ [125] ++ rest /\
-    d = (pdu, Z.of_N u) /\ pdu <> [] /\
-    crc16_bitwise (u :: pdu) = c0 + 256 * c1 /\ ~ In 125 ((u :: pdu) ++ [c0; c1]).
-Proof. exact bin_gate_first. Qed.
+(* ---- binary framer (after the /repo repairs "checks the CRC over the frame after skipping leading
+   bytes" and "advanceFrame drops exactly the frame").
+   GATE, binary: for EVERY receiver state, chunk and decoder that rejects the empty PDU (both real
+   decoders do), every message delivered by a call - the first or a later one of the same read,
+   with or without junk in front of its '{' - is exactly the unit and PDU between a '{' and the
+   next '}', and the two bytes before that '}' are their bitwise CRC-16, low byte first. *)
+Theorem C07_gate_binary : forall cfg st chunk st' ds x,
+  wfb (b_buf st ++ chunk) = true -> cf_dec cfg [] <> DMsg ->
+  bin_recv cfg st chunk = (st', ds, x) ->
+  forall d, In d ds -> bin_justified (b_buf st ++ chunk) d.
+Proof. exact bin_gate. Qed.
 Print Assumptions C07_gate_binary.
 
 (* ... and that span is the specified frame when it contains no '{' either *)
 Theorem C07_gate_binary_span_is_spec : forall u pdu c0 c1, c0 < 256 -> c1 < 256 ->
   crc16_bitwise (u :: pdu) = c0 + 256 * c1 -> no_delim ((u :: pdu) ++ [c0; c1]) = true ->
   [123] ++ (u :: pdu) ++ [c0; c1] ++ [125] = spec_adu_binary u pdu.
-Proof. exact bin_gate_first_spec. Qed.
+Proof. exact bin_gate_span_spec. Qed.
 Print Assumptions C07_gate_binary_span_is_spec.
+
+(* junk in front of '{' does not cost the frame: a whole delimiter-free frame behind bytes without
+   '{' is delivered (and only it) *)
+Theorem C07_binary_junk_prefix : forall cfg st chunk j u pdu, valid_bframe cfg u pdu -> ~ In 123 j ->
+  b_buf st ++ chunk = j ++ spec_adu_binary u pdu ->
+  bin_recv cfg st chunk = (bin_init, [(pdu, Z.of_N u)], FOk).
+Proof. exact bin_recv_whole. Qed.
+Print Assumptions C07_binary_junk_prefix.
+
+(* the former refutation witness (finding F-C07-binary-stale-start, status fixed): one noise byte in
+   front and one byte inserted after '{' is no longer delivered; an intact frame behind noise is *)
+Theorem C07_binary_stale_start_fixed :
+  let cfg := {| cf_dec := fun _ => DMsg; cf_rules := server_decoder; cf_units := [17%Z; 3%Z]; cf_single := false |} in
+  snd (fst (bin_recv cfg bin_init [0; 123; 17; 3; 43; 14; 1; 0; 9; 183; 125])) = [] /\
+  snd (fst (bin_recv cfg bin_init [0; 255; 123; 3; 43; 14; 1; 0; 9; 183; 125])) = [([43; 14; 1; 0], 3%Z)].
+Proof. exact bin_stale_start_fixed_witness. Qed.
+Print Assumptions C07_binary_stale_start_fixed.
